@@ -251,6 +251,49 @@ func (r *rwRT) ruleTmplConsumer() {
 		}
 	}
 	r.ruleTmplConsumerNoVar()
+	r.ruleTmplConsumerLhs()
+}
+
+// the '=' form with a left-hand side that is not a plain identifier (`for st.last = range it`, `for xs[i] = range it`,
+// `for *p = range it`): the binding is still `lhs = it.Current()`.
+func (r *rwRT) ruleTmplConsumerLhs() {
+	c := r.c
+	fn := r.method("rewriter", "rewriteForRange")
+	pos := r.w.FnPos(fn)
+	for _, lhsKind := range []string{"SelectorExpr", "IndexExpr", "StarExpr", "ParenExpr"} {
+		st := newState()
+		key := Dyn{T: r.astPtr(lhsKind), V: leafSym("fr.Key")}
+		bodyRef, _ := r.heapNode(st, "BlockStmt", map[string]AV{"List": leafSym("fr.Body.List")})
+		frRef, _ := r.heapNode(st, "RangeStmt", map[string]AV{"Key": key, "Value": Nil{}, "Tok": r.tokConst("ASSIGN"), "X": exprLeaf(r, "fr.X"), "Body": bodyRef})
+		in := r.interp(rwConfig{root: fn})
+		outs := in.Run(st, fn, []AV{Sym{Name: "r", NN: true}, Sym{Name: "pkg", NN: true}, frRef}, nil)
+		r.account(in)
+		construct := "for <" + lhsKind + "> = range x"
+		var firstErr error
+		live := 0
+		for _, o := range outs {
+			if o.Panicked {
+				continue
+			}
+			live++
+			it := pBind{"it", pAny{}}
+			bind := nd("AssignStmt", map[string]Pat{"Lhs": lst(pLeaf{"fr.Key"}), "Tok": pTok{r.tokConst("ASSIGN")}, "Rhs": lst(pMethodCall(pSame{"it"}, "Current"))})
+			want := nd("ForStmt", map[string]Pat{
+				"Init": nd("AssignStmt", map[string]Pat{"Lhs": lst(it), "Tok": pTok{r.tokConst("DEFINE")}, "Rhs": lst(pLeaf{"fr.X"})}),
+				"Cond": pMethodCall(pSame{"it"}, "MoveNext"),
+				"Body": pOr{[]Pat{nd("BlockStmt", map[string]Pat{"List": lst(bind, pSpread{"fr.Body.List"})}), nd("BlockStmt", map[string]Pat{"List": lst(bind, pVal{bodyRef})})}},
+			})
+			if err := matchTmpl(o.St, o.Ret[0], want); err != nil && firstErr == nil {
+				firstErr = fmt.Errorf("%v: %s", err, o.St.Render(o.Ret[0]))
+			}
+		}
+		if live == 0 {
+			firstErr = fmt.Errorf("rejected on every path")
+		}
+		c.check(firstErr == nil, "RW.TMPL.CONSUMER", construct, pos,
+			"for it := <operand>; it.MoveNext(); { <lhs> = it.Current(); body }: the element is stored through the loop's left-hand side whatever its form",
+			"consumer loop lowering has the wrong shape (a left-hand side that is a field, an element or a dereference must still receive every element): "+fmt.Sprint(firstErr))
+	}
 }
 
 // the loop without a variable: `for range g { body }` is valid Go (the source ranges over a channel type) and
@@ -862,6 +905,17 @@ func (r *rwRT) ruleConsumerDispatch() {
 					for _, l := range o.St.Labels {
 						if strings.HasPrefix(l, "isIterator(") && strings.HasSuffix(l, fmt.Sprintf("=%v", isIter)) {
 							match = true
+						}
+					}
+					if !match && !o.Panicked && isIter && err == nil {
+						asked := false
+						for _, l := range o.St.Labels {
+							if strings.HasPrefix(l, "isIterator(") {
+								asked = true
+							}
+						}
+						if !asked {
+							err = fmt.Errorf("a range statement is passed over without the question whether its operand is an iterator (a path decided by where the statement stands — e.g. under a label — leaves the loop unlowered while its operand's type becomes seq.Iterator: the output does not build): %s", pathSummary(o))
 						}
 					}
 					if !match || o.Panicked {
